@@ -251,7 +251,8 @@ MUTANTS += [
     ("revert_metropolis_probs", "C03", "REVERT", "MetropolisChain.take_step records", ""),
     ("revert_pca_one_param", "C15", "REVERT", "single parameter", ""),
     ("revert_ensemble_advance0", "C15", "REVERT", "advance(0) on a fresh sampler", ""),
-    ("revert_ensemble_copy", "C03", "REVERT", "own copy of the starting positions", ""),
+    # (the fix 3dc166f `.copy()` became `.astype(float)` in d774407: the revert is written out)
+    ("revert_ensemble_copy", "C03", "inference/mcmc/ensemble.py", "            ).astype(float)\n", "            ).astype(float, copy=False)\n"),
     ("revert_hmc_squeeze", "C14", "REVERT", "get_parameter returns a 1-D array", ""),
     ("revert_load_printer", "C09", "REVERT", "get their progress printer", ""),
     ("revert_pca_save_covar", "C09", "REVERT", "saved before its first direction update", ""),
